@@ -2,14 +2,20 @@
 subdivide / resize_ranges / total_range_size) is base-exact.
 
 Correspondence: GenomicArray.<op> on generated tables against the extracted Coq
-model (Model/Intervals.v, applied per chromosome) and against a direct oracle
-that is independent of the model's algorithm: a per-base bitmap (every base in
-the enumerated scopes; every elementary segment between consecutive endpoints
-for the large random tables, which is the same thing for half-open intervals),
-cross-checked against the extracted specification function covers_b.
+model at GENOME level (Model/Intervals.v: g_merge / g_flatten / g_subtract / g_intersect /
+g_subdivide / g_resize / g_total on the whole multi-chromosome table, rows compared in
+order, every column) and against direct oracles that are independent of the model's
+algorithm: a per-base bitmap (every base in the enumerated scopes; every elementary
+segment between consecutive endpoints for the large random tables, which is the same
+thing for half-open intervals), cross-checked against the extracted specification
+function covers_b; the order of the chromosome blocks as coded; and, for merge / flatten,
+the payload rule (gene / accession = comma-join of the distinct names of exactly the
+input rows an output row covers, in row order; weight / probes summed; strand merged;
+a column without combiner from the first row of the overlap group).
 
-A table row is (chromosome, start, end, gene, tag); `cols` says which of the
-extra columns exist in the DataFrame ('plain' | 'gene' | 'gene+tag')."""
+A table row is (chromosome, start, end, gene, tag, accession, strand, weight, probes);
+`cols` says which of the extra columns exist in the DataFrame
+('plain' | 'gene' | 'gene+tag' | 'full'); absent columns are blank ('' / 0)."""
 import os, sys, json, itertools, multiprocessing
 from fractions import Fraction
 import vlib
@@ -21,7 +27,15 @@ COLSETS = {
     'plain': ['chromosome', 'start', 'end'],
     'gene': ['chromosome', 'start', 'end', 'gene'],
     'gene+tag': ['chromosome', 'start', 'end', 'gene', 'tag'],
+    'full': ['chromosome', 'start', 'end', 'gene', 'tag', 'accession', 'strand', 'weight', 'probes'],
 }
+BLANK = ('', 0, '', '', 0.0, 0)      # gene, tag, accession, strand, weight, probes of an absent column
+
+
+def full_row(r):
+    """pad a generator row (chrom, lo, hi[, gene[, tag[, accession, strand, weight, probes]]]) to 9 fields"""
+    r = tuple(r)
+    return r + BLANK[len(r) - 3:]
 
 
 # ----------------------------------------------------------------------------
@@ -54,16 +68,20 @@ def _num(v):
 
 
 def canon_table(ga, cols):
-    """GenomicArray -> list of (chrom, start, end, gene, tag); column set must be the input's."""
+    """GenomicArray -> list of 9-field rows; column set must be the input's."""
     df = ga.data
     names = COLSETS[cols]
     if list(df.columns) != names:
         return Err('columns %r' % (list(df.columns),))
     out = []
+    st = lambda v: v if isinstance(v, str) else repr(v)     # noqa
     for tup in df.itertuples(index=False):
-        gene = tup[3] if len(names) > 3 else ''
-        tag = _num(tup[4]) if len(names) > 4 else 0
-        out.append((str(tup[0]), _num(tup[1]), _num(tup[2]), gene if isinstance(gene, str) else repr(gene), tag))
+        gene, tag, acc, strand, weight, probes = tuple(tup[3:]) + BLANK[len(names) - 3:]
+        try:
+            weight = float(weight)
+        except (TypeError, ValueError):
+            weight = repr(weight)
+        out.append((str(tup[0]), _num(tup[1]), _num(tup[2]), st(gene), _num(tag), st(acc), st(strand), weight, _num(probes)))
     return out
 
 
@@ -95,6 +113,10 @@ def run_job(job):
             return canon_table(a.resize_ranges(job['bp'], job.get('sizes')), cols)
         if op == 'total':
             return _num(a.total_range_size())
+        if op == 'sort':
+            b = a.copy()          # sort() works in place; the cached table must stay as generated
+            b.sort()
+            return canon_table(b, cols)
         return Err('unknown op')
     except ValueError as e:
         return Err('ValueError')
@@ -139,10 +161,10 @@ class Runner:
 
 
 def by_chrom(rows):
-    """rows -> {chrom: [(lo, hi, gene, tag)]} in first-occurrence order, table order inside."""
+    """rows -> {chrom: [(lo, hi, gene, tag, acc, strand, weight, probes)]} in first-occurrence order, table order inside."""
     d = {}
     for r in rows:
-        d.setdefault(r[0], []).append(tuple(r[1:5]))
+        d.setdefault(r[0], []).append(tuple(r[1:9]))
     return d
 
 
@@ -198,11 +220,128 @@ def coords(t):
 
 
 def has_source(piece, src_rows):
-    s, e, g, tag = piece
-    return any(lo <= s and e <= hi and g == gg and tag == tt for (lo, hi, gg, tt) in src_rows)
+    s, e = piece[0], piece[1]
+    return any(r[0] <= s and e <= r[1] and tuple(r[2:]) == tuple(piece[2:]) for r in src_rows)
 
 
 def oracle(job, out):
+    """cover clause first (bitmaps), then the order of the chromosome blocks and the payload rule"""
+    if job['op'] == 'sort':
+        # GenomicArray.sort: stable sort on (sorter_chrom(chromosome), start, end) -- python's sorted() is stable
+        from skgenome.chromsort import sorter_chrom
+        exp = sorted([tuple(r) for r in job['a']], key=lambda r: (sorter_chrom(r[0]), r[1], r[2]))
+        if [tuple(r) for r in out] != exp:
+            return ('C06_genome_sort', 'GenomicArray.sort is not the stable sort on (chromosome key, start, end)', exp)
+        return None
+    bad = cover_oracle(job, out)
+    if bad is not None:
+        return bad
+    if job['op'] in ('total', 'resize'):
+        return None
+    return order_oracle(job, out) or payload_oracle(job, out)
+
+
+def distinct(xs):
+    seen, res = set(), []
+    for x in xs:
+        if x not in seen:
+            seen.add(x)
+            res.append(x)
+    return res
+
+
+def blocks(rows):
+    """the chromosome names of consecutive rows, runs collapsed"""
+    res = []
+    for r in rows:
+        if not res or res[-1] != r[0]:
+            res.append(r[0])
+    return res
+
+
+def whole_fast(rows, op, bp):
+    """the fast path of merge() / flatten(): decided on the whole table in table order (all chromosomes)"""
+    cmax = None
+    for r in rows:
+        if cmax is not None:
+            gap = r[1] - cmax
+            if not (gap > -bp if op != 'flatten' else gap >= 0):
+                return False
+        cmax = r[2] if cmax is None else max(cmax, r[2])
+    return True
+
+
+def order_oracle(job, out):
+    """the order of the chromosome blocks of the output, as coded:
+    merge / flatten / subdivide: the table's own order when nothing overlaps anywhere (the table comes back as it is);
+    otherwise one block per chromosome, ordered by sorter_chrom (ties: by name);
+    subtract: the chromosomes of `a` in order of first appearance, one block each (`b` empty: `a` itself);
+    intersection(trim): the chromosomes of `b` in order of first appearance."""
+    from skgenome.chromsort import sorter_chrom
+    op = job['op']
+    bl = blocks(out)
+    have = set(bl)
+    if op in ('merge', 'flatten', 'subdivide'):
+        bp = (job.get('bp') or 0) if op == 'merge' else 0
+        if not job['a']:
+            exp = []
+        elif whole_fast(job['a'], op, bp):
+            exp = blocks([r for r in job['a'] if r[0] in have])
+            if op != 'subdivide' and [tuple(r) for r in out] != [tuple(r) for r in job['a']]:
+                return ('C06_genome_%s' % op, '%s changes a table in which nothing overlaps' % op, job['a'])
+        else:
+            exp = [c for c in sorted(sorted(set(r[0] for r in job['a'])), key=sorter_chrom) if c in have]
+    elif op == 'subtract':
+        if not job['b']:
+            if [tuple(r) for r in out] != [tuple(r) for r in job['a']]:
+                return ('C06_genome_subtract', 'subtracting an empty table changes the table', job['a'])
+            return None
+        exp = [c for c in distinct(r[0] for r in job['a']) if c in have]
+    else:
+        exp = [c for c in distinct(r[0] for r in job['b']) if c in have]
+    if bl != exp:
+        return ('C06_genome_%s' % op, '%s: the chromosome blocks of the output are not in the order the code documents' % op, exp)
+    return None
+
+
+def merged_payload(cov, first):
+    """what the default combiners make of the rows `cov` (in row order) of a group whose first row is `first`:
+    (gene, tag, accession, strand, weight, probes)"""
+    strands = distinct(r[5] for r in cov)
+    return (','.join(distinct(r[2] for r in cov)), first[3], ','.join(distinct(r[4] for r in cov)),
+            strands[0] if len(strands) == 1 else '.', sum(r[6] for r in cov), sum(r[7] for r in cov))
+
+
+def payload_oracle(job, out):
+    """merge() (bp 0) / flatten() with the default combiners: the other fields of every output row, stated on the
+    input rows it covers (merge: the rows lying inside it; flatten: the rows containing it), in (start, end) order."""
+    op = job['op']
+    if op not in ('merge', 'flatten') or job.get('compare') == 'coords' or (op == 'merge' and (job.get('bp') or 0) != 0):
+        return None
+    A, O = by_chrom(job['a']), by_chrom(out)
+    fast = whole_fast(job['a'], op, 0)
+    for c, o in O.items():
+        srt = sorted(A.get(c, []), key=lambda r: (r[0], r[1]))
+        runs = runs_of(srt)
+        for x in o:
+            if op == 'merge':
+                cov = [r for r in srt if x[0] <= r[0] and r[1] <= x[1]]
+                first = cov[0] if cov else None
+            else:
+                cov = [r for r in srt if r[0] <= x[0] and x[1] <= r[1]]
+                run = [rn for rn in runs if rn[0] <= x[0] and x[1] <= rn[1]]
+                grp = [r for r in srt if run and run[0][0] <= r[0] and r[1] <= run[0][1]]
+                first = x if fast else (grp[0] if grp else None)
+            if not cov:
+                return ('C06_%s_payload' % op, '%s: an output row covers no input row (%s)' % (op, c), None)
+            exp = merged_payload(cov, first)
+            if tuple(x[2:]) != exp:
+                return ('C06_%s_payload' % op, '%s: the other fields of output row %s:%d-%d are not the combination of the input '
+                        'rows it covers' % (op, c, x[0], x[1]), list(exp))
+    return None
+
+
+def cover_oracle(job, out):
     """Evaluate the property's clause for this operation on the code's output `out`
     (already known not to be an Err). Returns None if it holds, else (clause, what, expected)."""
     op = job['op']
@@ -302,7 +441,7 @@ def oracle(job, out):
                 lo, hi = min(lo, sizes[r[0]]), min(hi, sizes[r[0]])
             if bp < 0 and hi - lo <= 0:
                 continue
-            exp.append((r[0], lo, hi, r[3], r[4]))
+            exp.append((r[0], lo, hi) + tuple(r[3:]))
         if [tuple(r) for r in out] != exp:
             return ('C06_resize', 'resize_ranges does not move both ends by bp clipped to [0, size], dropping rows that shrink to nothing', exp)
         return None
@@ -316,7 +455,7 @@ def nontrivial(job, out):
     if op == 'total':
         A = by_chrom(job['a'])
         return out != sum(r[1] - r[0] for c in A for r in A[c])
-    if op in ('merge', 'flatten', 'subdivide', 'resize'):
+    if op in ('merge', 'flatten', 'subdivide', 'resize', 'sort'):
         return [tuple(r) for r in out] != [tuple(r) for r in job['a']]
     if op == 'subtract':
         return [tuple(r) for r in out] != [tuple(r) for r in job['a']] and len(out) > 0
@@ -355,68 +494,64 @@ def float_cuts(a_rows, avg, mn):
     return out
 
 
+def frows(rows):
+    """model encoding of a genome table: [chrom, lo, hi, gene, accession, strand, weight, probes, tag]"""
+    return [[r[0], r[1], r[2], r[3], r[5], r[6], Fraction(r[7]), r[8], r[4]] for r in rows]
+
+
+def from_model_row(x):
+    w = x[6]
+    return (x[0], x[1], x[2], x[3], x[8], x[4], x[5], float(w) if isinstance(w, (int, Fraction)) else w, x[7])
+
+
 def model_requests(job):
-    """-> list of (entry, input, key); results are assembled by model_assemble.
-    Whole-table operations (merge / flatten / subdivide / total_range_size decide their
-    fast path on the whole table) pass all rows in table order plus the per-chromosome
-    groups; the grouping by chromosome name is done here."""
+    """-> list of (entry, input, key): ONE genome-level request per job (the whole table(s) in table order; the
+    grouping by chromosome, the fast paths and the order of the output are the model's business)."""
     op = job['op']
     A = by_chrom(job['a'])
-    chroms = list(A)
-    whole = [[r[1], r[2], r[3], r[4]] for r in job['a']]
-    groups = [mrows(A[c]) for c in chroms]
-    reqs = []
     if op == 'merge':
         bp = job['bp'] if job.get('bp') is not None else 0
-        reqs.append(('c06_merge', [bp, whole, groups], chroms))
-    elif op == 'flatten':
-        reqs.append(('c06_flatten', [whole, groups], chroms))
-    elif op == 'subtract':
-        B = by_chrom(job['b'])
-        for c in A:
-            reqs.append(('c06_subtract', [mrows(A[c]), mrows(B.get(c, []))], c))
-    elif op == 'intersect':
-        B = by_chrom(job['b'])
-        shared = [c for c in B if c in A]
-        reqs.append(('c06_intersect', [[mrows(A[c]), mrows(B[c])] for c in shared], shared))
-    elif op == 'subdivide':
+        return [('c06_g_merge', [bp, frows(job['a'])], None)]
+    if op == 'flatten':
+        return [('c06_g_flatten', frows(job['a']), None)]
+    if op == 'subtract':
+        return [('c06_g_subtract', [frows(job['a']), frows(job['b'])], None)]
+    if op == 'intersect':
+        return [('c06_g_intersect', [frows(job['a']), frows(job['b'])], None)]
+    if op == 'subdivide':
         mn = job['mn'] if job.get('mn') is not None else 0
         cuts = []
         for c in A:
             for ct in float_cuts([r for r in A[c] if r[0] < r[1]], job['avg'], mn):
                 if not any(x[0] == ct[0] and x[1] == ct[1] for x in cuts):
                     cuts.append(ct)
-        reqs.append(('c06_subdivide', [job['avg'], mn, whole, groups, cuts], chroms))
-    elif op == 'resize':
-        sizes = job.get('sizes') or None
-        for c in A:
-            reqs.append(('c06_resize', [job['bp'], sizes[c] if sizes else None, mrows(A[c])], c))
-    elif op == 'total':
-        reqs.append(('c06_total', [whole, groups], chroms))
-    return reqs
+        return [('c06_g_subdivide', [job['avg'], mn, frows(job['a']), cuts], None)]
+    if op == 'resize':
+        sizes = job.get('sizes')
+        return [('c06_g_resize', [job['bp'], None if sizes is None else [[c, v] for c, v in sizes.items()], frows(job['a'])], None)]
+    if op == 'total':
+        return [('c06_g_total', frows(job['a']), None)]
+    if op == 'sort':
+        return [('c06_g_sort', frows(job['a']), None)]
+    return []
 
 
 def model_assemble(job, reqs, results):
-    """-> {chrom: [(lo, hi, gene, tag)]} without empty chromosomes, an int for total, or Err."""
-    op = job['op']
+    """-> the model's output table (9-field rows, in order), an int for total, or Err."""
     for r in results:
         if isinstance(r, Err):
             return r
-    if op == 'total':
+    if job['op'] == 'total':
         return results[0]
-    if op in ('intersect', 'merge', 'flatten', 'subdivide'):
-        (entry, inp, keys), res = reqs[0], results[0]
-        return {c: [tuple(x) for x in rows] for c, rows in zip(keys, res) if rows}
-    return {key: [tuple(x) for x in res] for (entry, inp, key), res in zip(reqs, results) if res}
+    return [from_model_row(x) for x in results[0]]
 
 
 def code_as_model_shape(job, out):
     if isinstance(out, Err) or job['op'] == 'total':
         return out
-    d = by_chrom(out)
     if job.get('compare') == 'coords':
-        return {c: [(r[0], r[1]) for r in rows] for c, rows in d.items()}
-    return d
+        return [(r[0], r[1], r[2]) for r in out]
+    return [tuple(r) for r in out]
 
 
 # ----------------------------------------------------------------------------
@@ -489,12 +624,9 @@ def report_violation(st, job, what, clause, out, expected, sig=None):
 
 
 def norm_rows(rows, cols):
-    """blank the columns that do not exist in the DataFrame (gene -> '', tag -> 0)."""
-    if cols == 'gene+tag':
-        return [tuple(r) for r in rows]
-    if cols == 'gene':
-        return [(r[0], r[1], r[2], r[3], 0) for r in rows]
-    return [(r[0], r[1], r[2], '', 0) for r in rows]
+    """blank the columns that do not exist in the DataFrame ('' / 0) and pad every row to 9 fields."""
+    k = len(COLSETS[cols])
+    return [full_row(tuple(r)[:k]) for r in rows]
 
 
 def normalise(job):
@@ -525,7 +657,7 @@ def evaluate(st, jobs):
     # specification cross-check: extracted covers_b on the code's output vs the python bitmap
     spec_in, spec_exp = [], []
     for job, out in zip(jobs, outs):
-        if isinstance(out, Err) or job['op'] in ('total', 'resize'):
+        if isinstance(out, Err) or job['op'] in ('total', 'resize', 'sort'):
             continue
         O = by_chrom(out)
         for c, rows in O.items():
@@ -543,8 +675,8 @@ def evaluate(st, jobs):
     for job, out, reqs, res in zip(jobs, outs, allreqs, results):
         model = model_assemble(job, reqs, res)
         code = code_as_model_shape(job, out)
-        if job.get('compare') == 'coords' and isinstance(model, dict):
-            model = {c: [(r[0], r[1]) for r in rows] for c, rows in model.items()}
+        if job.get('compare') == 'coords' and isinstance(model, list):
+            model = [(r[0], r[1], r[2]) for r in model]
         stream = job.get('stream', 'valid')
         ck.count(job_case(job), nontrivial=(stream != 'edge' and nontrivial(job, out)), cls='%s:%s' % (job['op'], job.get('cls', stream)))
         if stream == 'edge':
@@ -587,8 +719,13 @@ def intersect_expected_empty(job):
 GENES = ['A', 'B', 'A', 'C']
 
 
+ACCS = ['p', 'q', 'p']
+STRANDS = ['+', '-', '+', '+']
+
+
 def table_from(ivs, chrom='chr1', genes=GENES, tag0=1):
-    return [(chrom, lo, hi, genes[i % len(genes)], tag0 + i) for i, (lo, hi) in enumerate(ivs)]
+    return [(chrom, lo, hi, genes[i % len(genes)], tag0 + i, ACCS[i % 3], STRANDS[(i + tag0) % 4], 0.25 * (1 + (i + tag0) % 5), 1 + i)
+            for i, (lo, hi) in enumerate(ivs)]
 
 
 def intervals_over(n):
@@ -617,7 +754,7 @@ def variant_tables(a_ivs, b_ivs, variant, idx):
         if k in (0, 2):
             b = b + table_from([(2, 4)], 'chr2', genes=['z'], tag0=60)
     elif variant == 'gene':
-        cols = 'gene' if idx % 2 == 0 else 'gene+tag'
+        cols = ('gene', 'gene+tag', 'full', 'full')[idx % 4]
     return a, b, cols
 
 
@@ -772,42 +909,67 @@ def rand_near_rows(rng, k, ref, scale, zero_width=False):
 
 CHROMS = ['chr1', 'chr2', 'chrX']
 GENE_POOL = ['A', 'B', 'C', 'TP53', 'A', '-', 'BRCA1']
+ACC_POOL = ['NM_1', 'NM_2', 'NM_1', '']
+# chromosome names as the slow path of merge() / flatten() orders them: by name first, then stably by sorter_chrom
+NAME_SETS = [['chr1', 'chr2', 'chrX'], ['chr2', 'chr10', 'chr1'], ['1', '10', '2'], ['chrX', 'chrY', 'chr9'],
+             ['chrM', 'chr1', 'chr1_gl000191_random'], ['chrUn_a', 'chr3', 'chr22'], ['X', '7', 'MT'], ['chr1', 'Chr1', 'CHR2']]
 
 
 def attach(rng, chrom, ivs, tag0):
-    return [(chrom, lo, hi, rng.choice(GENE_POOL), tag0 + i) for i, (lo, hi) in enumerate(ivs)]
+    return [(chrom, lo, hi, rng.choice(GENE_POOL), tag0 + i, rng.choice(ACC_POOL), rng.choice('++-.'), 0.25 * rng.randint(0, 12),
+             rng.randint(0, 9)) for i, (lo, hi) in enumerate(ivs)]
+
+
+def interleave(rng, rows):
+    """mix the chromosomes of a table while keeping each chromosome's own rows in order"""
+    d = by_chrom_rows(rows)
+    res = []
+    while d:
+        c = rng.choice(list(d))
+        res.append(d[c].pop(0))
+        if not d[c]:
+            del d[c]
+    return res
+
+
+def by_chrom_rows(rows):
+    d = {}
+    for r in rows:
+        d.setdefault(r[0], []).append(r)
+    return d
 
 
 def random_pair(rng, edge=False):
-    """a pair of tables (sorted as GenomicArray.sort leaves them) + column set."""
+    """a pair of tables (each chromosome's rows sorted by (start, end), chromosome blocks in the order of the name set,
+    which need not be the sorted one) + column sets."""
     scale = rng.choice([8, 12, 30, 100, 1000, 10 ** 4, 10 ** 6, 10 ** 6])
     maxrows = rng.choice([2, 4, 8, 16, 40])
     na = rng.randint(0 if rng.random() < 0.05 else 1, maxrows)
     nb = rng.randint(0 if rng.random() < 0.05 else 1, maxrows)
-    layout = rng.choice(['same1', 'same1', 'same2', 'a_more', 'b_more', 'disjoint_chroms', 'three'])
-    ca = {'same1': ['chr1'], 'same2': ['chr1', 'chr2'], 'a_more': ['chr1', 'chr2'], 'b_more': ['chr1'],
-          'disjoint_chroms': ['chr1'], 'three': ['chr1', 'chr2', 'chrX']}[layout]
-    cb = {'same1': ['chr1'], 'same2': ['chr1', 'chr2'], 'a_more': ['chr2'], 'b_more': ['chr1', 'chrX'],
-          'disjoint_chroms': ['chr2'], 'three': ['chr1', 'chrX']}[layout]
+    names = CHROMS if rng.random() < 0.4 else rng.choice(NAME_SETS)
+    layout = rng.choice(['same1', 'same1', 'same2', 'a_more', 'b_more', 'disjoint_chroms', 'three', 'three_all'])
+    n0, n1, n2 = names
+    ca = {'same1': [n0], 'same2': [n0, n1], 'a_more': [n0, n1], 'b_more': [n0],
+          'disjoint_chroms': [n0], 'three': [n0, n1, n2], 'three_all': [n0, n1, n2]}[layout]
+    cb = {'same1': [n0], 'same2': [n0, n1], 'a_more': [n1], 'b_more': [n0, n2],
+          'disjoint_chroms': [n1], 'three': [n0, n2], 'three_all': [n2, n0, n1]}[layout]
     a, b = [], []
     refs = {}
-    for c in CHROMS:
-        if c in ca:
-            k = max(0, na // len(ca) + rng.choice([0, 0, 1]))
+    for c in ca:
+        k = max(0, na // len(ca) + rng.choice([0, 0, 1]))
+        ivs = rand_chrom_rows(rng, k, scale, zero_width=edge)
+        refs[c] = ivs
+        a += attach(rng, c, ivs, 100 * (names.index(c) + 1))
+    for c in cb:
+        k = max(0, nb // len(cb) + rng.choice([0, 0, 1]))
+        if rng.random() < 0.7:
+            ivs = rand_near_rows(rng, k, refs.get(c, []), scale, zero_width=edge)
+        else:
             ivs = rand_chrom_rows(rng, k, scale, zero_width=edge)
-            refs[c] = ivs
-            a += attach(rng, c, ivs, 100 * (CHROMS.index(c) + 1))
-    for c in CHROMS:
-        if c in cb:
-            k = max(0, nb // len(cb) + rng.choice([0, 0, 1]))
-            if rng.random() < 0.7:
-                ivs = rand_near_rows(rng, k, refs.get(c, []), scale, zero_width=edge)
-            else:
-                ivs = rand_chrom_rows(rng, k, scale, zero_width=edge)
-            b += attach(rng, c, ivs, 500 + 100 * CHROMS.index(c))
+        b += attach(rng, c, ivs, 500 + 100 * names.index(c))
     a, b = a[:40], b[:40]
-    cols = rng.choice(['plain', 'gene', 'gene+tag', 'gene+tag'])
-    bcols = rng.choice([cols, 'plain', 'gene+tag'])
+    cols = rng.choice(['plain', 'gene', 'gene+tag', 'full', 'full'])
+    bcols = rng.choice([cols, 'plain', 'gene+tag', 'full'])
     return a, b, cols, bcols, scale
 
 
@@ -817,8 +979,19 @@ def random_jobs(rng, edge=False):
     cls = 'zero-width' if edge else 'rand'
     base = {'a': a, 'cols': cols, 'stream': stream, 'cls': cls}
     jobs = []
-    jobs.append(dict(base, op='subtract', b=b, bcols=bcols))
-    jobs.append(dict(base, op='intersect', b=b, bcols=bcols))
+    # subtract looks the rows of b up per chromosome (b's chromosomes may interleave, a's rows may come in any order);
+    # the trimmed intersection looks the rows of a up (a's chromosomes may interleave, b's rows in any order)
+    sa, sb, ia, ib, bcls = a, b, a, b, cls
+    if not edge and rng.random() < 0.25:
+        bcls = 'interleaved'
+        sa = list(a)
+        rng.shuffle(sa)
+        sb = interleave(rng, b)
+        ia = interleave(rng, a)
+        ib = list(b)
+        rng.shuffle(ib)
+    jobs.append(dict(base, op='subtract', a=sa, b=sb, bcols=bcols, cls=bcls))
+    jobs.append(dict(base, op='intersect', a=ia, b=ib, bcols=bcols, cls=bcls))
     # unary operations also see shuffled tables (merge and flatten sort internally;
     # resize and total_range_size do not care) -- never with zero-width rows
     au = a
@@ -836,6 +1009,9 @@ def random_jobs(rng, edge=False):
     if cols != 'plain' and rng.random() < 0.3:
         jobs.append(dict(ubase, op='flatten', combiner='explicit', compare='coords'))
     jobs.append(dict(ubase, op='total'))
+    if shuffled or rng.random() < 0.15:
+        # GenomicArray.sort on the shuffled table (rows with equal keys differ in their other fields: stability)
+        jobs.append(dict(ubase, op='sort'))
     # subdivide: avg chosen so that no region gets more than ~300 bins; sizes around span/k and ties (.5)
     A = by_chrom(a)
     spans = [e - s for c in A for (s, e) in runs_of([r for r in A[c] if r[0] < r[1]])] or [1]
@@ -858,6 +1034,11 @@ def random_jobs(rng, edge=False):
     elif rng.random() < 0.2:
         sizes = {}
     jobs.append(dict(ubase, op='resize', bp=rbp, sizes=sizes))
+    if sizes and len(sizes) > 1 and rng.random() < 0.3:
+        # a chromosome the mapping lacks (outside resize_ranges' contract): its limit is NaN, which clip ignores
+        part = dict(sizes)
+        del part[rng.choice(sorted(part))]
+        jobs.append(dict(ubase, op='resize', bp=rbp, sizes=part, stream='edge', cls='size-missing'))
     return jobs
 
 
@@ -930,9 +1111,10 @@ def run(ck, scratch):
                'subtract and intersection(trim), and every table of either side for merge(bp None,1,2; thorough also 0,3) / flatten (default and explicit '
                'combiner) / subdivide(avg 1..3 x min None,1,2,3) / resize_ranges(bp -2..2 x sizes None,n-2,n) / total_range_size; then '
                'random pairs (1 500 quick / 50 000 thorough; <=40 rows, coordinates to 10^6; duplicates, abutting, overlapping by one, nested, shared ends, second table '
-               'placed on/next to the first one\'s endpoints, extra columns, chromosomes in only one table, shuffled rows for the unary '
-               'operations); then an edge stream (zero-width rows, bp < 0) compared model-vs-code only. Every case: code vs per-base bitmap '
-               'oracle (all bases / all elementary segments), vs extracted model per chromosome, and extracted covers_b vs the bitmap. '
+               'placed on/next to the first one\'s endpoints, extra columns up to the full set gene / accession / strand / weight / probes + a combiner-less tag, '
+               'chromosomes in only one table, chromosome name sets whose name order, sorter_chrom order and table order all differ (chr2 chr10 chr1 / 1 10 2 / chrM chr1 chr1_gl.. / X 7 MT / chr1 Chr1 CHR2), '
+               'shuffled rows for the unary operations, interleaved chromosomes and shuffled rows for subtract / intersection); then an edge stream (zero-width rows, bp < 0) compared model-vs-code only. Every case: code vs per-base bitmap '
+               'oracle (all bases / all elementary segments), vs the extracted GENOME-LEVEL model (whole multi-chromosome tables, rows compared in order, every column: gene, accession, strand, weight, probes and a combiner-less tag), the order of the chromosome blocks as coded, the payload rule of merge / flatten stated on the covered input rows, and extracted covers_b vs the bitmap. '
                'non-trivial = the operation changes the table (rows merged / split / removed / clipped; a AND b non-empty for intersect); '
                'distinct by case hash')
     if not ck.build_status.get('driver_ok'):
@@ -989,6 +1171,17 @@ ALL_CLAUSES = {
     'C06_resize': 'resize_ranges: both ends moved by bp, clipped to [0, size], rows shrinking to nothing dropped',
     'C06_subdivide': 'subdivide: max(1, round(len/avg)) consecutive equal (+-1) bins covering each merged region of at least min size',
     'C06_total_size': 'total_range_size = number of covered bases',
+    'C06_genome_merge': 'merge on a multi-chromosome table: per chromosome the proved merge, blocks ordered by name then sorter_chrom',
+    'C06_genome_flatten': 'flatten on a multi-chromosome table: per chromosome the proved flatten, same block order',
+    'C06_genome_subtract': 'subtract on multi-chromosome tables: per chromosome; a chromosome only in the table is untouched; first-appearance order',
+    'C06_genome_intersect': 'trimmed intersection on multi-chromosome tables: per chromosome; a chromosome in only one table is dropped',
+    'C06_genome_subdivide': 'subdivide on a multi-chromosome table = per chromosome',
+    'C06_genome_resize': 'resize_ranges on a multi-chromosome table: row by row, each row clipped at its own chromosome size',
+    'C06_genome_total': 'total_range_size = sum over the chromosomes',
+    'C06_genome_sort': 'GenomicArray.sort: per chromosome the stable (start, end) sort; stable; chromosomes in sorter_chrom order',
+    'C06_merge_payload': 'merge: gene = comma-join of the distinct names of exactly the covered input rows in row order; sums; strand; first row',
+    'C06_flatten_payload': 'flatten: the same rule over the input rows containing the piece',
+    'C06_combiners': 'get_combiners defaults by column name; join_strings / first_of / last_of / max / sum / merge_strands / make_const',
 }
 
 
@@ -998,8 +1191,12 @@ def unproved_remainder(ck):
     for name, what in ALL_CLAUSES.items():
         if not any(t == name or t.startswith(name + '_') for t in have):
             out.append('%s (%s): not proved in Coq; checked by the bitmap oracle on every generated case only' % (name, what))
-    out.append('faithfulness of the per-chromosome model to the pandas code (groupby, searchsorted selection of overlapping rows, '
-               'sort stability, chromosome re-sorting) is searched by the correspondence, not proved')
+    out.append('pandas internals below the genome-level model (that sort_values / groupby(sort=False) / reindex / from_records / clip do '
+               'what the model states: stable (name, start, end) sort, groups in order of first appearance, stable re-sort by sorter_chrom, '
+               'NaN limits ignored by clip; searchsorted selection of the overlapping rows, proved in C07) are exercised by the '
+               'correspondence on whole multi-chromosome tables (rows compared in order, every column), not proved')
+    out.append('merge(stranded=True) (grouping by chromosome and strand) and user-supplied combiners other than a gene function are not '
+               'modelled; python float summation order of the weight column is modelled exactly (weights in the generators are dyadic)')
     out.append('float cut points of subdivide: int(i * (span / nbins)) is an oracle; its contract is checked on every supplied point')
     return out
 
